@@ -36,6 +36,7 @@ type Case struct {
 	KeyExists string `json:"key_exists"`
 	Pre       bool   `json:"preexisting_first_key"`
 	FailAt    int    `json:"fail_restore_number"` // 0: none, j: the j-th RESTORE gets an error reply
+	FailMsg   string `json:"fail_reply,omitempty"` // the error reply (without '-'); default "ERR injected failure"
 	// Retry: after the injected failure was reported, the run is started again against an emptied
 	// target, the way DbSyncer.Sync restarts a failed full sync (`go ds.Sync()` on the same object)
 	Retry bool `json:"retry_after_failure,omitempty"`
@@ -142,7 +143,11 @@ func Run(t *testing.T, c Case, ch *seqx.Chooser, start func(file []byte, report 
 				if cmd.Name() == "restore" {
 					restores++
 					if restores == c.FailAt {
-						return []byte("-ERR injected failure\r\n")
+						msg := c.FailMsg
+						if msg == "" {
+							msg = "ERR injected failure"
+						}
+						return []byte("-" + msg + "\r\n")
 					}
 				}
 				return nil
@@ -414,6 +419,15 @@ func Scenarios() []Case {
 			}
 			for j := 1; j <= 3; j++ {
 				out = append(out, Case{Keys: keys, Workers: w, TargetDB: -1, KeyExists: "none", FailAt: j})
+			}
+			// other refusals a busy or degraded target answers with: none of them means "the key exists"
+			if w <= 2 {
+				for _, msg := range []string{"BUSY Redis is busy running a script. You can only call SCRIPT KILL or SHUTDOWN NOSAVE.",
+					"LOADING Redis is loading the dataset in memory", "OOM command not allowed when used memory > 'maxmemory'.", "BUSYGROUP x"} {
+					for _, pol := range []string{"none", "rewrite", "ignore"} {
+						out = append(out, Case{Keys: keys, Workers: w, TargetDB: -1, KeyExists: pol, FailAt: 2, FailMsg: msg})
+					}
+				}
 			}
 			out = append(out, Case{Keys: keys, Workers: w, TargetDB: -1, KeyExists: "none", FailAt: 1, Retry: true})
 			out = append(out, Case{Keys: keys, Workers: w, TargetDB: -1, KeyExists: "none", FailAt: 2, Retry: true})
